@@ -48,7 +48,9 @@ impl Scopes {
                 (*self.functions).borrow().iter().map(Arc::clone).collect(),
             )),
             len: Arc::new(Cell::new(self.len())),
-            last_variable_index: self.last_variable_index,
+            // the lookup cache is only valid for the `Scopes` that filled it: the
+            // frames are shared with the closure and may gain nearer variables later
+            last_variable_index: None,
         }
     }
 
